@@ -80,6 +80,14 @@ theorem disabled_accepts_all (declared : Option Nat) (actual : Nat) :
     (pollingPost 0 declared actual).accepted = true ∧ (wsMessage 0 actual).accepted = true := by
   simp [pollingPost, wsMessage]
 
+open SioVerif.Limits in
+/-- the two halves meet: with the server's limit announced as maxPayload, every batch of several packets the client's batcher forms
+    is a POST body the server's long-polling transport accepts (declared truthfully, as the client does) -/
+theorem client_batches_fit_server_limit (max : Nat) (xs : List Nat) :
+    ∀ b ∈ split max xs, 2 ≤ b.length → (pollingPost max (some (payloadLen b)) (payloadLen b)).accepted = true := by
+  intro b hb hl
+  exact (accepts_within_limit max (payloadLen b) (split_bounded max xs b hb hl)).1
+
 /-- the limit is installed on every inbound path (read from the source by the translator) -/
 theorem limits_installed :
     Gen.eioPollingBodyLimited = true ∧ Gen.eioWsServerReadLimitSet = true ∧ Gen.eioWsClientReadLimitLifted = true := by decide
